@@ -498,6 +498,28 @@ def oracle(fn, arg, out):
             if j < 0:
                 return 'the rendered text of entry %r does not appear (in order) in the document' % (S(k),)
             pos = j + len(r[1])
+        if b == 0:
+            # the entries part of an HTML document is well-formed (labels here are plain)
+            i = doc.find('<dl>\n'); j = doc.rfind('</dl></body></html>')
+            if i < 0 or j < i:
+                return 'the HTML document lacks its <dl> ... </dl></body></html> frame'
+            if all(not any(c in S(l) for c in '<>&') for (_, l, _) in entries):
+                p = _Ev(); p.feed(doc[i + 5:j]); p.close()
+                stack = []
+                for e in p.ev:
+                    if e[0] == 'start':
+                        stack.append(e[1])
+                    elif e[0] == 'end':
+                        if not stack or stack[-1] != e[1]:
+                            return 'the entries part of the HTML document is not well-formed (unexpected </%s>)' % e[1]
+                        stack.pop()
+                if stack:
+                    return 'the entries part of the HTML document is not well-formed (unclosed <%s>)' % stack[-1]
+        if b == 1 and brace_balanced(S(preamble)) and all(brace_balanced(S(k)) and brace_balanced(S(l)) and all(brace_balanced(S(x)) for x in tree_strings(t, [])) for (k, l, t) in entries):
+            if not brace_balanced(doc):
+                return 'the LaTeX document has unbalanced braces although every key, label and string is balanced'
+            if doc.count('\\bibitem[') < len(entries) or '\\begin{thebibliography}' not in doc or '\\end{thebibliography}' not in doc:
+                return 'the LaTeX document lacks \\begin/\\end{thebibliography} or a \\bibitem per entry'
         return None
     return None
 
@@ -735,7 +757,6 @@ TRUSTED_BASE = ['modelled (not verified) code: pybtex/backends/{__init__,html,la
                 'pybtex.textutils.width (label widths are inputs of the document model)']
 ASSUMPTIONS = ['enc_keeps_braces / table shape hypotheses: discharged per run for the measured tables (generated obligations)',
                'the rich-text tree given to the model is the real object tree dumped after construction (the smart constructor itself is C08)']
-PARTIAL = []
 
 # ----------------------------------------------------------------------------------------
 # per-run table obligations (DESIGN.md 2.3): the tables are regenerated from the code / measured
@@ -790,39 +811,55 @@ def generated_obligations(ck):
     obs.append(run('latexcodec_keeps_braces', 'latexcodec\'s translation of every ASCII character (+ samples), measured, keeps the brace skeleton', enc))
     return obs
 
-PARTIAL = ['latex_depth_roundtrip is proved for the identity codec; with latexcodec the depth claim is oracled on values the codec leaves unchanged and compared model-vs-code elsewhere',
+PARTIAL = ['latex_depth_roundtrip is proved for the identity codec (and under sampled codec hypotheses, next item); elsewhere the depth claim is oracled on values the codec leaves unchanged and compared model-vs-code',
            'HTML / Markdown / LaTeX theorems assume ordinary URLs and tag names (no angle bracket; no ")" in Markdown link URLs; balanced braces in LaTeX): the code inserts both unescaped',
-           'whole documents (write_to_stream) are tied by the correspondence only; no theorem is stated about them',
+           'whole documents: the HTML <head> block (DOCTYPE, void meta elements) is fixed text outside the well-formedness theorem; labels/keys are inserted unescaped (hypotheses plain_label / balanced)',
+           'latex_depth_roundtrip_codec: its four codec hypotheses are sampled against latexcodec (codec_hypotheses_sweep), not proved of it, and hold only on an alphabet without space , - \' ` ~',
            'latexcodec itself is a measured table (encoder) / applied by the harness (decoder)']
 
 # ----------------------------------------------------------------------------------------
-# extraction cross-check: a sample of cases evaluated by Coq's vm_compute on `dispatch` itself
-def _coq_sx(v):
-    if isinstance(v, int):
-        return '(A (%d)%%Z)' % v
-    return '(L [' + '; '.join(_coq_sx(x) for x in v) + '])'
+# the codec hypotheses of latex_depth_roundtrip_codec, sampled against latexcodec on every run
+CODEC_ALPHA = ''.join(chr(c) for c in range(33, 127) if chr(c) not in "{}\\~'`-,")
 
 def extra_checks(ck, tier, rng):
-    n = 40 if tier == 'quick' else 300
-    cases = []
-    for i in range(n):
-        k = i % 4
-        if k == 0:
-            cases.append((1, [rng.randrange(4), rng.choice([0, 1]), rand_tree(rng, 2, lambda r: rand_str(r, 4))]))
-        elif k == 1:
-            cases.append((2, [rng.randrange(4), rand_str(rng, 6)]))
-        elif k == 2:
-            cases.append((4, [rand_latex(rng, 2)]))
-        else:
-            cases.append((5, [rand_latex(rng, 2)]))
-    margs = [(fn, norm(model_arg(fn, norm(a)))) for fn, a in cases]
-    outs = ck.model.run(margs, ck.rundir, shards=1)
-    body = ['From Pybtex Require Import Base.Prelude.', 'Require Import C09.', 'Local Open Scope Z_scope.']
-    for i, ((fn, a), o) in enumerate(zip(margs, outs)):
-        body.append('Lemma xc_%d : dispatch %d %s = %s.\nProof. vm_compute. reflexivity. Qed.' % (i, fn, _coq_sx(a), _coq_sx(o)))
-    path = os.path.join(ck.rundir, 'C09_crosscheck.v')
-    open(path, 'w').write('\n'.join(body) + '\n')
-    rc, log = coqc_file(path, ck.rundir, extra_Q=[(os.path.join(VERIF, '_build', 'extract', 'c09'), '')])
-    fails = [] if rc == 0 else [('vm_compute cross-check', log[-600:], False)]
-    yield {'name': 'extraction_vs_vm_compute', 'evaluations': n, 'failures': fails,
-           'info': 'the extracted OCaml model and Coq\'s vm_compute agree on `dispatch` for a sample of generated cases'}
+    import codecs, latexcodec  # noqa
+    be = backend_tables(1)[2]
+    enc = be.format_str
+    def dec(s):
+        return codecs.decode(s, 'ulatex')
+    fails = []; n = 0
+    def bad(what, *vals):
+        if len(fails) < 5:
+            fails.append((what, repr(vals)[:300], False))
+    if enc('') != '':
+        bad('enc [] = []')
+    # exhaustive over pairs of alphabet characters, then random longer strings
+    strings = [''] + list(CODEC_ALPHA) + [a + b for a in CODEC_ALPHA for b in CODEC_ALPHA]
+    for _ in range(3000 if tier == 'quick' else 60000):
+        strings.append(''.join(rng.choice(CODEC_ALPHA) for _ in range(rng.randint(3, 12))))
+    for s in strings:
+        n += 1
+        try:
+            e = enc(s)
+            if dec(e) != s:
+                bad('dec (enc s) = s', s, e, dec(e))
+            if '{' in e or '}' in e:
+                bad('enc keeps the brace skeleton', s, e)
+            k = rng.randrange(len(s) + 1)
+            if enc(s[:k]) + enc(s[k:]) != e:
+                bad('enc (a ++ b) = enc a ++ enc b', s[:k], s[k:])
+        except Exception as ex:
+            bad('codec raised', s, repr(ex))
+    # the decoder leaves braces in place: dec (enc a ++ b :: r) = dec (enc a) ++ b :: dec r, r an encoded token stream
+    for _ in range(2000 if tier == 'quick' else 40000):
+        n += 1
+        a = ''.join(rng.choice(CODEC_ALPHA) for _ in range(rng.randint(0, 6)))
+        b = rng.choice('{}')
+        r = ''.join(rng.choice(['{', '}', enc(''.join(rng.choice(CODEC_ALPHA) for _ in range(rng.randint(1, 4))))]) for _ in range(rng.randint(0, 6)))
+        try:
+            if dec(enc(a) + b + r) != dec(enc(a)) + b + dec(r):
+                bad('dec (enc a ++ b :: r) = dec (enc a) ++ b :: dec r', a, b, r)
+        except Exception as ex:
+            bad('decoder raised', a, b, r, repr(ex))
+    yield {'name': 'codec_hypotheses_sweep', 'evaluations': n, 'failures': fails,
+           'info': 'hypotheses of latex_depth_roundtrip_codec against latexcodec on the alphabet %r (printable ASCII without braces, backslash, ~ \' ` - ,): all strings of length <= 2, random longer ones, random brace/token streams' % CODEC_ALPHA}
